@@ -38,12 +38,13 @@ AnyErr(o) == o.status >= 400 \/ \E k \in 1..Len(o.errs) : o.errs[k]
 \* one plain success per request that had to be considered
 PlainSuccess(o, n) == o.status = 200 /\ Len(o.errs) = n /\ ~AnyErr(o)
 
-\* a mutation effect the query string cannot explain: was a body sent along?
-Blame(o, why) == IF Len(o.body) > 0 THEN "violation:get-body-executed" ELSE why
+\* a mutation effect the deviation's trigger cannot excuse; "+body": a JSON body was sent along too
+Blame(o, why) == IF Len(o.body) > 0 THEN why \o "+body" ELSE why
 
 GetVerdict(o) ==
   IF o.qs = <<>> THEN                                \* GET without a query string: nothing may run
-    (IF o.effects = 0 THEN "ok" ELSE Blame(o, "violation:empty-get-ran-mutation"))
+    (IF o.effects = 0 THEN "ok"
+     ELSE IF Len(o.body) > 0 THEN "violation:get-body-executed" ELSE "violation:empty-get-ran-mutation")
   ELSE LET it == o.qs[1] IN
   IF NoSelection(it) THEN                            \* empty / unknown operationName, ambiguous document
     (IF o.effects = 0 THEN "ok" ELSE Blame(o, "violation:unselected-mutation-ran-over-get"))
